@@ -3123,6 +3123,17 @@ func (fr *Frame) call(st *State, x *ssa.Call) bool {
 			q := fmt.Sprintf("k_q%d", c.n)
 			fr.assume(st, fmt.Sprintf("(forall ((%s Int)) (! (=> (and (<= 0 %s) (< %s (sl.len %s))) (<= (slen (%s %s %s %s)) (slen %s))) :pattern ((%s %s %s %s))))", q, q, q, r, ef, arr, r, q, sv.T, ef, arr, r, q))
 		}
+		if k, ok := x.Call.Args[1].(*ssa.Const); ok && k.Value != nil && len(constant.StringVal(k.Value)) >= 1 {
+			// constant non-empty separator: the pieces are the ones of the mathematical split (prelude: splitcnt/splitoff/splitpiece)
+			sl := x.Type().Underlying().(*types.Slice)
+			_, arr := c.elemHeap(st, sl.Elem())
+			ef := c.eltFn(sl.Elem())
+			sep := fr.val(x.Call.Args[1])
+			c.n++
+			q := fmt.Sprintf("k_q%d", c.n)
+			fr.assume(st, fmt.Sprintf("(= (sl.len %s) (splitcnt %s %s))", r, sv.T, sep.T))
+			fr.assume(st, fmt.Sprintf("(forall ((%s Int)) (! (=> (and (<= 0 %s) (< %s (sl.len %s))) (= (%s %s %s %s) (splitpiece %s %s %s))) :pattern ((%s %s %s %s))))", q, q, q, r, ef, arr, r, q, sv.T, sep.T, q, ef, arr, r, q))
+		}
 		setRes(Val{r, x.Type()})
 		return true
 	case "strings.Index":
